@@ -66,6 +66,21 @@ func genOverlayPair(rt *rapid.T) (old, nw []byte, desc []string) {
 	if target > 700*KiB {
 		target = 700 * KiB
 	}
+	if rapid.IntRange(0, 5).Draw(rt, "padding") == 0 {
+		// runs of a constant byte (zero padding) whose extent differs between old and new: content that
+		// matches the old file at shifted offsets
+		a := rapid.SampledFrom([]int{100, 8*KiB + 1, 50 * KiB, 100 * KiB, 200 * KiB}).Draw(rt, "padold")
+		b := a + rapid.SampledFrom([]int{-100, -1, 1, 100, 5000, 9000}).Draw(rt, "paddelta")
+		if b < 0 {
+			b = 0
+		}
+		tailA := Bytes(rapid.Uint64().Draw(rt, "padseedA"), rapid.IntRange(0, 150*KiB).Draw(rt, "padtailA"))
+		tailB := Bytes(rapid.Uint64().Draw(rt, "padseedB"), rapid.IntRange(0, 150*KiB).Draw(rt, "padtailB"))
+		if rapid.Bool().Draw(rt, "padsametail") {
+			tailB = tailA
+		}
+		return append(make([]byte, a), tailA...), append(make([]byte, b), tailB...), []string{fmt.Sprintf("zeros(%d)+tail(%d) -> zeros(%d)+tail(%d)", a, len(tailA), b, len(tailB))}
+	}
 	if len(old) >= 128*KiB && target > len(old) && rapid.IntRange(0, 3).Draw(rt, "periodic") == 0 {
 		// new = old followed by a repetition of old's last window(s): the data past old's EOF equals
 		// what the previous window of the old file held
@@ -140,6 +155,26 @@ func TestC14(t *testing.T) {
 		fed := 0
 		nwrites, flushes := 0, 0
 		var script []string
+		if rapid.IntRange(0, 5).Draw(rt, "flushatzero") == 0 {
+			// a checkpoint before the first byte of content, then a new session from the reported offsets
+			if ferr := ow.Flush(); ferr != nil {
+				Violation(rt, "C14/flush-failed", "Flush before any content: %v", ferr)
+				return
+			}
+			ro, oo := ow.ReadOffset(), ow.OverlayOffset()
+			if ro != 0 {
+				Violation(rt, "C14/read-offset-after-flush", "after Flush before any content ReadOffset is %d", ro)
+				return
+			}
+			script = append(script, fmt.Sprintf("flush@0(ro=%d,oo=%d)+resume", ro, oo))
+			sessions++
+			ow, err = newWriter(ro, oo)
+			if err != nil {
+				Violation(rt, "C14/resume-writer", "NewOverlayWriter(%d,%d): %v", ro, oo, err)
+				return
+			}
+			Ev.Probe("session_resumed_before_first_byte")
+		}
 		nextLen := func(rem int) int {
 			var l int
 			switch sliceMode {
